@@ -89,6 +89,22 @@ func (t *ManualTimer) Set(d time.Duration, do func()) { t.mu.Lock(); t.do = do; 
 func (t *ManualTimer) Stop()                          { t.mu.Lock(); t.do = nil; t.mu.Unlock() }
 func (t *ManualTimer) take() func()                   { t.mu.Lock(); defer t.mu.Unlock(); return t.do }
 
+// FireAsync lets the batch time-out expire now: the callback runs in a goroutine
+// of its own and hands its token to the operator whenever the operator's loop
+// gets to it (a real timer does not wait for anybody either). Reports whether a
+// timer was armed.
+func (t *ManualTimer) FireAsync() bool {
+	t.mu.Lock()
+	cb := t.do
+	t.do = nil
+	t.mu.Unlock()
+	if cb == nil {
+		return false
+	}
+	go cb()
+	return true
+}
+
 var worldSeq int
 
 func NewWorld(tune Tuning) *World {
